@@ -118,7 +118,7 @@ func VerifC29Sweep() {
 	rt.SchedBound(0, false)
 	m := c27Node(nil)
 	ctx, cancel := context.WithCancel(context.Background())
-	p1 := &streamHandler{m: m, le: m.le, packetCh: make(chan *Packet, 16), ctx: ctx, tpl: pubsub.PeerLinkTuple{PeerID: "\x00\x01P", LinkID: 1}}
+	p1 := &streamHandler{m: m, le: m.le, packetCh: make(chan *Packet, 4), ctx: ctx, tpl: pubsub.PeerLinkTuple{PeerID: "\x00\x01P", LinkID: 1}}
 	m.peers[p1.tpl] = p1
 	rt.Go("execute", func() { _ = m.Execute(ctx) })
 	rt.Quiesce()
@@ -150,11 +150,26 @@ func VerifC29Sweep() {
 	rt.FireTickers()
 	rt.Quiesce()
 	rt.Assert("nothing is withdrawn while a local subscription remains", len(c29Subs(p1)) == 0)
+	// the peer may be slow: its send queue is full at the moment of the sweep
+	backlogged := rt.Choose("peerBacklogged", 2) == 1
+	filler := 0
+	if backlogged {
+		for len(p1.packetCh) < cap(p1.packetCh) {
+			p1.packetCh <- &Packet{}
+			filler++
+		}
+	}
 	subs[nsubs-1].Release()
 	rt.Quiesce()
 	rt.FireTickers()
 	rt.Quiesce()
 	got = c29Subs(p1)
+	if backlogged {
+		rt.Reach("backlogged peer")
+		// the peer catches up: the withdrawal must still arrive
+		rt.Quiesce()
+		got = append(got, c29Subs(p1)...)
+	}
 	rt.Assert("after the last release peers are told once that the channel is no longer wanted", len(got) == 1 && got[0].GetChannelId() == "a" && !got[0].GetSubscribe())
 	m.mtx.Lock()
 	_, still := m.channels["a"]
